@@ -169,6 +169,20 @@ def checkSignature (restricted : Bool) (kindOf : κ → CertKind) (order : List 
     let r := tryCerts restricted kindOf m certs
     ⟨if r.1 then .accepted else .badSignature, r.2⟩
 
+/-- `_check_signature(..., only_valid_cert=ovc)` as `Entity._parse_request` calls it for requests
+    (`want_authn_requests_only_with_valid_cert`): the tail is `if verified or only_valid_cert:
+    cert_handler.verify_cert(last) … else: raise SignatureError`, and `verify_cert` returns `True`
+    unless `validate_certificate` is configured (not modelled) — with `ovc` a signature that
+    verifies under none of the selected certificates is let through ("ignore the signature and
+    verify the certificate", docs/howto/config.rst); `MissingKey` is still raised first. -/
+def checkSignatureOvc (restricted : Bool) (kindOf : κ → CertKind) (order : List RoleKind) (onlyMd ovc : Bool)
+    (md : Metadata ι κ) (m : Msg ι κ) : Result κ :=
+  let certs := selectCerts order onlyMd md m
+  if certs.isEmpty then ⟨.missingKey, []⟩
+  else
+    let r := tryCerts restricted kindOf m certs
+    ⟨if r.1 || ovc then .accepted else .badSignature, r.2⟩
+
 /-- `_issuer = item.issuer.text.strip()`, and only when the item has none, the caller's `issuer=`. -/
 def effIssuer (arg : Option ι) (m : Msg ι κ) : Option ι :=
   match m.issuer with
@@ -255,18 +269,24 @@ structure Out (κ : Type) where
   handedR : List κ      -- certificates given to verify_redirect_signature
 deriving Repr
 
-/-- Accept/refuse of a signed message by the receiving entity (`own` = the receiver's own key). -/
-def accept (restricted : Bool) (kindOf : κ → CertKind) (own : κ) (order : List RoleKind) (onlyMd : Bool)
+/-- Accept/refuse of a signed message by the receiving entity (`own` = the receiver's own key).
+    `ovc`, `must`: the receiver's normalised `want_authn_requests_only_with_valid_cert` and
+    `want_authn_requests_signed`; they reach requests only (`Entity._parse_request`: `must = True` when
+    `ovc`; `Request._loads`: the detached check runs only when `must`), so for the `after` kinds
+    (assertions at a service provider) they play no role. -/
+def accept (restricted : Bool) (kindOf : κ → CertKind) (own : κ) (order : List RoleKind) (onlyMd ovc must : Bool)
     (md : Metadata ι κ) (kind : Kind ι κ) (m : Msg ι κ) : Out κ :=
   match kind with
   | .enveloped =>
-    let r := checkSignature restricted kindOf order onlyMd md m
+    let r := checkSignatureOvc restricted kindOf order onlyMd ovc md m
     ⟨decide (r.verdict = .accepted), r.handed, []⟩
   | .detached env =>
-    let rx : Result κ := if env then checkSignature restricted kindOf order onlyMd md m else ⟨.accepted, []⟩
+    let rx : Result κ := if env then checkSignatureOvc restricted kindOf order onlyMd ovc md m else ⟨.accepted, []⟩
     if rx.verdict = .accepted then
-      let rr := redirectCheck kindOf own order md m.issuer m.signer
-      ⟨decide (rr.verdict = .accepted), rx.handed, rr.handed⟩
+      if must || ovc then
+        let rr := redirectCheck kindOf own order md m.issuer m.signer
+        ⟨decide (rr.verdict = .accepted), rx.handed, rr.handed⟩
+      else ⟨true, rx.handed, []⟩
     else ⟨false, rx.handed, []⟩
   | .after first withArg =>
     let r1 := checkSignature restricted kindOf order onlyMd md first
@@ -274,5 +294,35 @@ def accept (restricted : Bool) (kindOf : κ → CertKind) (own : κ) (order : Li
       let r2 := checkSignatureArg restricted kindOf order onlyMd md (if withArg then first.issuer else none) m
       ⟨decide (r2.verdict = .accepted), r1.handed ++ r2.handed, []⟩
     else ⟨false, r1.handed, []⟩
+
+/-! ### configuration values as they are written -/
+
+/-- A configuration value as written: absent, a Python bool, an int, or a text — exactly `"true"`,
+    exactly `"false"`, empty, any other text. -/
+inductive CfgForm where
+  | absent | bool (b : Bool) | int (n : Nat) | textTrue | textFalse | textEmpty | textOther
+deriving DecidableEq, Repr
+
+/-- Per-service options (`service.idp.*`, `service.sp.*`): `Config.load_special` turns exactly
+    `"true"`/`"false"` into booleans, everything else is stored as it is and later used by truthiness. -/
+def normService : CfgForm → Bool
+  | .absent => false
+  | .bool b => b
+  | .int n => decide (n ≠ 0)
+  | .textTrue => true
+  | .textFalse => false
+  | .textEmpty => false
+  | .textOther => true
+
+/-- Top-level options (`only_use_keys_in_metadata`): stored as written, used by truthiness — the text
+    `"false"` is truthy; `dflt` when the configuration does not mention the option. -/
+def normCommon (dflt : Bool) : CfgForm → Bool
+  | .absent => dflt
+  | .bool b => b
+  | .int n => decide (n ≠ 0)
+  | .textTrue => true
+  | .textFalse => true
+  | .textEmpty => false
+  | .textOther => true
 
 end Keys
